@@ -1077,6 +1077,18 @@ def same_outputs(a, b, cov=None):
   return True
 
 
+def layout_signature(est):
+  """Memory layout of the fitted arrays (not their content): pickling turns any
+  array into a C- or F-contiguous one, so an estimator that stores a strided view
+  comes back with another layout - and BLAS then rounds its outputs differently."""
+  out = {}
+  for k_, v_ in vars(est).items():
+    if k_.endswith("_") and isinstance(v_, np.ndarray) and v_.ndim >= 1:
+      out[k_] = (bool(v_.flags.c_contiguous), bool(v_.flags.f_contiguous),
+                 tuple(int(np.sign(s_)) for s_ in v_.strides))
+  return out
+
+
 def fresh_restart(est, probes):
   """Process restart: pickle to disk, load in a *fresh interpreter* with
   another hash seed and a virgin global RNG, run the probes there, pickle
